@@ -148,6 +148,56 @@ def run_xfdeco(body, td, flav):
     return {"names": names, "exc": type(exc).__name__ if exc else None, "log": log, "problems": problems}
 
 
+EMPTY_FORMS = ["MultipleExceptions()", "MultipleExceptions(exc_info of MultipleExceptions())",
+               "MultipleExceptions(exc_info of a failure, exc_info of MultipleExceptions())"]
+
+
+def run_emptymulti(stage, form, flav):
+    """A stage raises a MultipleExceptions without constituents (e.g. `raise MultipleExceptions(*collected)` with nothing
+    collected): still exactly one outcome - an error (a failure for form 2) - later stages run, run() returns."""
+    from testtools.runtest import MultipleExceptions
+    log = []
+
+    def boom(case):
+        if form == 0:
+            raise MultipleExceptions()
+        inner = P._exc_info(MultipleExceptions())
+        if form == 1:
+            raise MultipleExceptions(inner)
+        raise MultipleExceptions(P._exc_info(AssertionError("real failure")), inner)
+
+    hook = ["setUp", "body", "tearDown", "cleanup0"][stage]
+    case = P.make_case(P.RET, P.RET, P.RET, [P.RET], log, hooks={hook: boom})
+    names, exc, _ = L.run_once(case, flav)
+    ok_br, seen = L.outcome_of(names, flav)
+    problems = []
+    if not ok_br:
+        problems.append("not bracketed / not exactly one outcome: %r" % (names,))
+    elif seen not in (L.seen_as("error", flav), L.seen_as("failure", flav)):
+        problems.append("a stage raised but the outcome is %s" % seen)
+    want_log = ["setUp", "cleanup0"] if stage == 0 else ["setUp", "body", "tearDown", "cleanup0"]
+    if log != want_log:
+        problems.append("stages run: %r, expected %r" % (log, want_log))
+    if exc is not None:
+        problems.append("run() raised %r" % (exc,))
+    return {"names": names, "log": log, "problems": problems}
+
+
+def h_emptymulti(stage: int, form: int, flav: int) -> bool:
+    """
+    pre: 0 <= stage < 4 and 0 <= form < 3 and 0 <= flav < 7
+    post: _
+    """
+    try:
+        v = dict(stage=ch.sel("stage", stage, 4), form=ch.sel("form", form, 3), flav=ch.sel("flav", flav, 7))
+    except ch.Prune:
+        return True
+    if ch.excluded(v):
+        return True
+    o = run_emptymulti(v["stage"], v["form"], v["flav"])
+    return ch.finish(not o["problems"], v, nontrivial=True)
+
+
 def run_skipdeco(deco, reason, body, flav):
     log = []
     case = P.make_case(P.RET, body, P.RET, [P.FAIL], log, skip_deco=deco + 1, skip_reason=SKIP_REASONS[reason])
@@ -220,7 +270,13 @@ HARNESSES = [
         fidelity=lambda seed: [(b, t, f) for b in range(P.N_KINDS) for t in (0, 2) for f in (2, 5)],
         observe=lambda *a: (lambda o: (o["names"], o["exc"], o["log"]))(run_xfdeco(*a)),
         describe=lambda *a: run_xfdeco(*a)),
+    Harness(
+        "emptymulti", h_emptymulti, lambda tier: [({}, 240)],
+        bounds={"quick": "setUp / body / tearDown / cleanup raises a MultipleExceptions with no constituents (bare, nested in another, "
+                         "next to a real failure) x 7 flavours"},
+        rule="every path non-trivial",
+        describe=lambda *a: run_emptymulti(*a)),
 ]
-OUTSIDE = ["constituents of MultipleExceptions other than (failure, error)",
+OUTSIDE = ["constituents of MultipleExceptions other than (failure, error) and the empty one",
            "user code that tampers with the result object",
            "programs with more faults than the bound; more than 2 cleanups"]
